@@ -34,17 +34,29 @@
 (***************************************************************************)
 EXTENDS Integers, Sequences, FiniteSets, TLC
 
+\* Apalache type annotations (comments for TLC):
+\* @typeAlias: cfg = { repair: Str, check: Str, n: Int, cells: Bool, maxPert: Int, snapUsesNext: Bool };
+\* @typeAlias: snap = { some: Bool, gen: Int, has: Bool, idx: Bool, count: Int, hint: Str };
+\* @typeAlias: st = { pc: Str, gen: Int, has: Bool, idx: Bool, count: Int, hint: Str, fresh: Int, attempt: Int,
+\*                    snapO: $snap, snapI: Int, outcome: Str, attempts: Int, sites: Seq(Str) };
+InsertTxnOps_aliases == TRUE
+
 \* policies: repair \in {"Never", "Every", "EveryN"}, check \in {"EndOnly", "EveryN"}; n = the N of EveryN
+\* @type: ($cfg, Int) => Bool;
 ShouldRepair(cfg, count) ==
   CASE cfg.repair = "Never" -> FALSE
     [] cfg.repair = "Every" -> TRUE
     [] OTHER -> count % cfg.n = 0
+\* @type: ($cfg, Int) => Bool;
 ShouldCheck(cfg, count) == cfg.check = "EveryN" /\ count % cfg.n = 0
 
+\* @type: $snap;
 NoSnap == [some |-> FALSE, gen |-> 0, has |-> FALSE, idx |-> FALSE, count |-> 0, hint |-> "old"]
+\* @type: $st => { gen: Int, has: Bool, idx: Bool, count: Int, hint: Str };
 Persist(s) == [gen |-> s.gen, has |-> s.has, idx |-> s.idx, count |-> s.count, hint |-> s.hint]
 
 \* cfg additionally: cells (cells can exist after the insertion), maxPert, snapUsesNext (TRUE = as coded)
+\* @type: Int => $st;
 TxnInit(count0) ==
   [pc |-> "outer", gen |-> 0, has |-> FALSE, idx |-> FALSE, count |-> count0, hint |-> "old",
    fresh |-> 1, attempt |-> 0, snapO |-> NoSnap, snapI |-> 0, outcome |-> "none", attempts |-> 0, sites |-> <<>>]
@@ -53,12 +65,15 @@ TxnInit(count0) ==
 \*   at "attempt": "dup" | "ok" | "R" (retryable error after mutating) | "N" (non-retryable error after mutating)
 \*                 | "fR" | "fN" (an attempt that succeeded and is then reported as failed by a failpoint)
 \*   at "repair" / "check": "ok" | "fail"
+\* @type: ($cfg, $st, Str) => $st;
 Step(cfg, s, c) ==
   CASE s.pc = "outer" ->
          LET next == s.count + 1
              needed == cfg.cells /\ (cfg.repair # "Never" \/ ShouldCheck(cfg, IF cfg.snapUsesNext THEN next ELSE s.count))
          IN  [s EXCEPT !.pc = "attempt",
-                       !.snapO = IF needed THEN [some |-> TRUE] @@ Persist(s) ELSE NoSnap]
+                       !.snapO = IF needed THEN [some |-> TRUE, gen |-> s.gen, has |-> s.has, idx |-> s.idx,
+                                                 count |-> s.count, hint |-> s.hint]
+                                 ELSE NoSnap]
     [] s.pc = "attempt" ->
          IF c = "dup" THEN [s EXCEPT !.pc = "done", !.outcome = "Skipped", !.attempts = s.attempt + 1]
          ELSE
@@ -96,18 +111,10 @@ Step(cfg, s, c) ==
     [] OTHER -> s
 
 \* which steps consume an environment choice, and which choices exist there
+\* @type: ($cfg, $st) => Set(Str);
 Choices(cfg, s) ==
   CASE s.pc = "attempt" -> {"dup", "ok", "R", "N", "fR", "fN"}
     [] s.pc = "repair"  -> {"ok", "fail"}
     [] s.pc = "check"   -> IF cfg.cells /\ ShouldCheck(cfg, s.count) THEN {"ok", "fail"} ELSE {"-"}
     [] OTHER -> {"-"}
-
-\* run to the end with a fixed sequence of choices for the choice-consuming steps (pure; used by the trace spec)
-RECURSIVE TxnRun(_, _, _)
-TxnRun(cfg, s, cs) ==
-  IF s.pc = "done" THEN s
-  ELSE IF s.pc \in {"attempt", "repair"} \/ (s.pc = "check" /\ cfg.cells /\ ShouldCheck(cfg, s.count))
-       THEN IF cs = <<>> THEN s     \* ran out of choices: not a complete run
-            ELSE TxnRun(cfg, Step(cfg, s, Head(cs)), Tail(cs))
-       ELSE TxnRun(cfg, Step(cfg, s, "-"), cs)
 =============================================================================
